@@ -31,10 +31,13 @@ LEVEL_TEXT = ("Composition theorem (C05_composition, closed): for every program 
               "witness that is replayed on the implementation (F3, F4, F5, F7, F8, F10, F12); F1, F2, F6, F9, F11 are repaired, their witnesses are "
               "regression cases and F6/F11 programs are now inside the theorem. The faithful model of the real traversal "
               "(seen-sets, pending expansions, KeyError skips) is tied to the code by differential runs: model vs griffe.load vs a fresh interpreter.")
-LEVEL_NOTE = ("Trusted: Coq kernel, extraction, the package->model abstraction in this file, CPython as authority. NOT proved: that the real traversal "
-              "(griffe_load: expand_exports over the whole tree, then expand_wildcards, each with seen-sets) equals the dependency-order schedule "
-              "(griffe_sched) when no gap event is reported; it is checked on every generated package (stat real_vs_sched_compared) and the gap events "
-              "(pending wildcard read F3, dropped or stale __all__ source F8, pending exports read F10) are exact in that sense only empirically. The "
+LEVEL_NOTE = ("Trusted: Coq kernel, extraction, the package->model abstraction in this file, CPython as authority. Real traversal: proved that "
+              "expand_exports (for every table and fuel, unconditionally) and expand_wildcards (when every wildcard import names a module of the "
+              "table) perform exactly the schedule's per-module steps in the order in which they complete the modules, so griffe_load is a "
+              "two-phase schedule along its own completion orders (C05_load_is_two_schedules). NOT proved: that this two-phase schedule equals the "
+              "single dependency-order schedule (griffe_sched) when no gap event is reported; it is checked on every generated package (stat "
+              "real_vs_sched_compared) and the gap events (pending wildcard read F3, dropped or stale __all__ source F8, pending exports read F10) "
+              "are exact in that sense only empirically. The "
               "composition theorem is relative to py_import: attributes bound on a package by the import system are outside it (compared modulo such "
               "names; finding F5 is classified by signature); its hypotheses are evaluated by the extracted model on every generated package (they "
               "hold on about 80 %) and its conclusion is checked against the interpreter there. Docstring/labels/parameters of presented aliases are "
@@ -42,7 +45,7 @@ LEVEL_NOTE = ("Trusted: Coq kernel, extraction, the package->model abstraction i
               "F3 leaked an `a/b/*` pseudo-member skip (C); names whose alias chain crosses a replaced alias member, and entries whose special-case "
               "comparison crosses one, accept either outcome (F7).")
 MODEL = ("Model.C05_wf", "run_C05w")
-COQ_TARGETS = ["Proofs/C05_imports.vo", "Proofs/C05_main.vo"]
+COQ_TARGETS = ["Proofs/C05_imports.vo", "Proofs/C05_main.vo", "Proofs/C05_realw.vo"]
 RULE = ("hand-written packages (one per rule of the anchored code) and the finding witnesses; seeded random packages in three streams: flat "
         "(package __init__ + 1-4 modules), rich (1-3 modules, a sub-package with 1-2 modules, optionally a nested sub-package) and cyclic (rich or "
         "flat plus 1-2 imports pointing forward in the order; model-vs-implementation only). A random dependency order (each __init__ before, after "
